@@ -128,6 +128,54 @@ let str_dval = function
 let str_value = function
   | VInt z -> str_of_z z | VBool b -> if b then "true" else "false" | VData d -> str_dval d
 
+(* ---- printing Core.Syntax terms back in the exporter's syntax (for rewrite-model correspondence) ---- *)
+let rec int_of_nat = function O -> 0 | S n -> 1 + int_of_nat n
+let sbinop = function
+  | OAdd -> "+" | OSub -> "-" | OMul -> "*" | ODiv -> "/" | OMod -> "%" | OAnd -> "and" | OOr -> "or"
+  | OLt -> "<" | OGt -> ">" | OLe -> "<=" | OGe -> ">=" | OEq -> "=="
+let sextfn = function
+  | XSin -> "sin" | XRelu -> "relu" | XSelect -> "select" | XExpf -> "expf" | XFmaxf -> "fmaxf"
+  | XSigmoid -> "sigmoid" | XSqrt -> "sqrt" | XOther -> "other"
+let ssym p = string_of_int (int_of_pos p)
+let rec sexpr (e : expr) : string =
+  match e with
+  | Var x -> "(var " ^ ssym x ^ ")"
+  | Int z -> "(int " ^ str_of_z z ^ ")"
+  | BoolC b -> "(bool " ^ (if b then "true" else "false") ^ ")"
+  | Real q -> "(real " ^ str_of_z (qc_num q) ^ " " ^ str_of_pos (qc_den q) ^ ")"
+  | Read (x, idx) -> "(read " ^ ssym x ^ " (" ^ String.concat " " (List.map sexpr idx) ^ "))"
+  | USub a -> "(neg " ^ sexpr a ^ ")"
+  | BinOp (op, a, b) -> "(bin " ^ sbinop op ^ " " ^ sexpr a ^ " " ^ sexpr b ^ ")"
+  | Extern (f, args) -> "(ext " ^ sextfn f ^ " (" ^ String.concat " " (List.map sexpr args) ^ "))"
+  | WindowE (x, acc) -> "(win " ^ ssym x ^ " (" ^ String.concat " " (List.map swacc acc) ^ "))"
+  | Stride (x, d) -> "(stride " ^ ssym x ^ " " ^ string_of_int (int_of_nat d) ^ ")"
+  | ReadCfg c -> "(cfg " ^ ssym c ^ ")"
+and swacc = function
+  | Point e -> "(pt " ^ sexpr e ^ ")"
+  | Interval (a, b) -> "(iv " ^ sexpr a ^ " " ^ sexpr b ^ ")"
+let skind = function
+  | KSize -> "size" | KIndex -> "index" | KBool -> "bool" | KStride -> "stride" | KScalar -> "scalar"
+  | KTensor (sh, w) -> "(tensor (" ^ String.concat " " (List.map sexpr sh) ^ ") " ^ (if w then "true" else "false") ^ ")"
+let names : (proc, string) Hashtbl.t = Hashtbl.create 16
+let rec sstmt (s : stmt) : string =
+  let lst l = "(" ^ String.concat " " (List.map sstmt l) ^ ")" in
+  let es l = "(" ^ String.concat " " (List.map sexpr l) ^ ")" in
+  match s with
+  | Assign (x, idx, rhs) -> "(assign " ^ ssym x ^ " " ^ es idx ^ " " ^ sexpr rhs ^ ")"
+  | Reduce (x, idx, rhs) -> "(reduce " ^ ssym x ^ " " ^ es idx ^ " " ^ sexpr rhs ^ ")"
+  | WriteCfg (c, rhs) -> "(wcfg " ^ ssym c ^ " " ^ sexpr rhs ^ ")"
+  | Pass -> "(pass)"
+  | If (c, a, b) -> "(if " ^ sexpr c ^ " " ^ lst a ^ " " ^ lst b ^ ")"
+  | For (i, lo, hi, b, par) -> "(for " ^ ssym i ^ " " ^ sexpr lo ^ " " ^ sexpr hi ^ " " ^ lst b ^ " " ^ (if par then "true" else "false") ^ ")"
+  | Alloc (x, sh) -> "(alloc " ^ ssym x ^ " " ^ es sh ^ ")"
+  | Call (f, args) -> "(call " ^ (try Hashtbl.find names f with Not_found -> sproc f) ^ " " ^ es args ^ ")"
+  | WindowS (x, rhs) -> "(wins " ^ ssym x ^ " " ^ sexpr rhs ^ ")"
+and sproc (p : proc) : string =
+  match p with
+  | Proc (args, preds, body) ->
+      "(proc (" ^ String.concat " " (List.map (fun (x, k) -> "(" ^ ssym x ^ " " ^ skind k ^ ")") args) ^ ") ("
+      ^ String.concat " " (List.map sexpr preds) ^ ") (" ^ String.concat " " (List.map sstmt body) ^ "))"
+
 let () =
   try
     while true do
@@ -135,7 +183,8 @@ let () =
       if String.length line > 0 then begin
         (try
           match parse line with
-          | L [A "def"; A name; p] -> Hashtbl.replace procs name (proc p); print_string "ok\n"
+          | L [A "def"; A name; p] -> let q = proc p in Hashtbl.replace procs name q; Hashtbl.replace names q name; print_string "ok\n"
+          | L [A "pe"; p; x; lit] -> print_string (sproc (pe_proc (sym x) (expr lit) (proc p)) ^ "\n")
           | L [A "run"; p; inp] ->
               (match run (proc p) (input inp) with
                | Invalid e -> print_string ("invalid " ^ str_err e ^ "\n")
